@@ -103,3 +103,21 @@ def mentions(expr: ast.AST, needle: str) -> bool:
 
 def func_label(module: Module, func: ast.AST) -> str:
     return getattr(func, "_qualname", getattr(func, "name", "?"))
+
+
+def step_exprs(step):
+    """The expression trees evaluated at a path step (original, un-expanded nodes)."""
+    if step.kind in ("stmt", "return", "raise"):
+        return [step.node]
+    if step.kind == "assume":
+        return [step.node]
+    if step.kind == "iter" and isinstance(step.node, (ast.For, ast.AsyncFor)):
+        return [step.node.iter]
+    if step.kind == "with":
+        return [step.node.context_expr]
+    return []
+
+
+def step_calls(step):
+    for expr in step_exprs(step):
+        yield from calls_in(expr)
